@@ -133,6 +133,21 @@ def run(cx):
             cx.guard('C19.R1', [s], {'depth-not-exhausted': r'^!DepthTracker::is_exhausted\('}, fn=g)
     cx.floor('C19.R1', n_guarded, 1, 'DepthTracker::nest call sites')
 
+    # ---------------------------------------------------------------- R3 the alias budget only counts up
+    # MAX_CNAME_LOOKUPS bounds the TOTAL number of alias lookups of one client query (the shared Arc<AtomicU8> is handed down through
+    # every nested resolve): the recursion depth bounds one path, the budget bounds the tree (k unresolved CNAMEs per response over d
+    # levels).  That holds only while the counter is monotone: within the recursor the only operations on an atomic counter are
+    # fetch_add and load - a fetch_sub / store / swap "when a link has been followed" turns the budget into a stack-depth gauge.
+    ops = {}
+    for g_ in cx.prog.fns.values():
+        if not re.search(r'hickory_resolver::recursor::', g_.path) or '::tests::' in g_.path:
+            continue
+        for s_ in cx.calls(g_, r'Atomic\w*::\w+$|atomic::Atomic\w*::\w+$'):
+            ops.setdefault(s_.label.rsplit('::', 1)[-1], []).append(f'{shorten(g_.path + "(")[:-1]} @ {s_.loc}')
+    bad = {k: v for k, v in ops.items() if k not in ('fetch_add', 'load', 'new', 'default', 'clone', 'fmt')}
+    cx.check('C19.R3', not bad, 'hickory_resolver::recursor', 'atomics', 'budget-counters-only-count-up(fetch_add/load)', '; '.join(f'{k}: {v[0]}' for k, v in bad.items()))
+    cx.floor('C19.R3', len(ops.get('fetch_add', [])), 1, 'fetch_add on a budget counter in the recursor')
+
     # ---------------------------------------------------------------- R2 the name-server pool's retry loop is bounded
     # every upstream exchange of the recursor and the stub resolver goes through PoolState::try_send, whose loop re-queues servers
     # (truncated -> TCP, case mismatch, busy back-off).  Its only unconditional bound is the lookup deadline: every cycle of the
